@@ -13,6 +13,7 @@ import OH.Driver.C11
 import OH.Driver.C18
 import OH.Driver.Py
 import OH.Driver.Syn
+import OH.Spec.Sentence
 /-
 `ohdriver`: reads protocol lines on stdin, prints one verdict line per input line.
 Only core + OH.Model/OH.Driver imports (no Mathlib), so it links as a `lean_exe`.
@@ -21,7 +22,8 @@ open OH.Driver
 
 def dispatch (op : String) (args impl : List String) : String :=
   let r :=
-    if op.startsWith "et." then OH.Driver.C19.handle op args impl
+    if op == "c04.parse" || op.startsWith "c05." || op.startsWith "c06." then OH.Driver.Syn.handle op args impl
+    else if op.startsWith "et." then OH.Driver.C19.handle op args impl
     else if op.startsWith "ev." || op.startsWith "c01." then OH.Driver.Ev.handle op args impl
     else if op.startsWith "c02." || op.startsWith "c03." || op.startsWith "c04." || op.startsWith "c08."
         || op.startsWith "c16." || op.startsWith "c17." then OH.Driver.Props.handle op args impl
@@ -34,7 +36,6 @@ def dispatch (op : String) (args impl : List String) : String :=
     else if op.startsWith "pur." then OH.Driver.C18.handle op args impl
     else if op.startsWith "py." then OH.Driver.Py.handle op args impl
     else if op.startsWith "sun." then OH.Driver.C11.handle op args impl
-    else if op.startsWith "syn." || op.startsWith "syn4." then OH.Driver.Syn.handle op args impl
     else none
   match r with
   | some v => v
@@ -88,7 +89,23 @@ partial def loop (ref : IO.Ref (Option OH.Driver.C10.Loaded)) (hin : IO.FS.Strea
   hout.putStrLn (← stepIO ref line)
   loop ref hin hout
 
-def main : IO Unit := do
+/-- `ohdriver gen c05 <quick|thorough> <seed>`: the sentence generator of OH/Spec/Sentence.lean prints
+`c05.den <text> A <denoted AST>` operation lines (executed afterwards by the harness on the real
+parser and judged by `OH.Driver.Syn`) -/
+def genC05 (tier : String) (seed : Nat) : IO Unit := do
+  let hout ← IO.getStdout
+  let n := if tier == "thorough" then 300000 else 8000
+  let mut st := OH.Spec.Sentence.seedState seed
+  for _ in [0:n] do
+    let ((e, txt), st') := OH.Spec.Sentence.genSentence.run st
+    st := st'
+    hout.putStrLn s!"c05.den {enc (String.ofList txt)} A {joinSp (OH.Driver.Nz.showExpr e)}"
+  hout.flush
+
+def main (args : List String) : IO Unit := do
+  match args with
+  | ["gen", "c05", tier, seed] => genC05 tier (seed.toNat?.getD 1)
+  | _ =>
   let hin ← IO.getStdin
   let hout ← IO.getStdout
   let ref ← IO.mkRef (none : Option OH.Driver.C10.Loaded)
